@@ -265,6 +265,20 @@ let () =
                 if expect <> bclass then report_mismatch ~field:("grid_" ^ entry) ~model:expect ~impl:bres
               end
             | _ -> ())
+         | 'Y' ->
+           (* zero-sized elements: Y k op | res len drops (bumpalo) | res len drops (std) *)
+           let secs = List.map String.trim (String.split_on_char '|' line) in
+           (match secs with
+            | [name; b; st] ->
+              cur := name; bump_count "zst_ops";
+              (match split_ws b, split_ws st with
+               | [br; bl; bd], [sr; sl; sd] ->
+                 let panicked = (br = "panic" || sr = "panic") in
+                 if br <> sr then report_spec ~prop:"C13" ~pred:"zst_returns_like_std" ~detail:(br ^ "_vs_std_" ^ sr);
+                 if bl <> sl && not panicked then report_spec ~prop:"C13" ~pred:"zst_len_like_std" ~detail:(bl ^ "_vs_std_" ^ sl);
+                 if bd <> sd && not panicked then report_spec ~prop:"C15" ~pred:"zst_drops_like_std" ~detail:(bd ^ "_vs_std_" ^ sd)
+               | _ -> ())
+            | _ -> ())
          | 'Z' ->
            let secs = List.map String.trim (String.split_on_char '|' line) in
            (match secs with
